@@ -8,7 +8,6 @@ NOT_APPLICABLE = {
     'C03': 'check not built yet in this round (planned, see DESIGN.md section 5)',
     'C05': 'check not built yet in this round (planned, see DESIGN.md section 5)',
     'C06': 'check not built yet in this round (planned, see DESIGN.md section 5)',
-    'C07': 'check not built yet in this round (planned, see DESIGN.md section 5)',
     'C10': 'check not built yet in this round (planned, see DESIGN.md section 5)',
     'C11': 'check not built yet in this round (planned, see DESIGN.md section 5)',
     'C14': 'check not built yet in this round (planned, see DESIGN.md section 5)',
@@ -168,5 +167,23 @@ PROPS['C12'] = dict(
     runs=[dict(variant='plain', harness='c04_quant_bound', prop='C12', cases=dict(quick=50000, thorough=1200000))],
     min_nontrivial=10000,
     require_counters={'pair/edgebreaker-vs-kd-tree': 300, 'pair/kd-tree-vs-edgebreaker': 300, 'pair/mesh-sequential-vs-edgebreaker': 200, 'shared_coordinates_compared': 100000, 'grid_values_checked': 500000},
+    assumptions=[],
+)
+
+PROPS['C07'] = dict(
+    title='Quantized normals decode to unit vectors within a bounded angle',
+    technique='runtime monitoring: double-precision angle/unit-length oracle over tagged round trips of generated normals; octahedral range read through a skip-transform decode',
+    level='exploration',
+    level_text=('Normals (uniform on the sphere; epsilon-neighbourhoods of the axes, of the octahedron edges incl. +-0 components, of the face centres; exact ties of projection grids; lengths 1e-30..1e30; '
+                'zero and denormal vectors) are quantized to 2..30 bits and round-tripped through sequential point clouds, sequential and Edgebreaker meshes with difference and geometric-normal prediction '
+                '(float, quantized and integer positions; degenerate and flipped triangles); every decoded normal is matched to its input through a uint32 tag and must be finite, of length 1+-1e-6 and within '
+                '3*(2/(2^q-2))+2e-6 rad of the input direction (inputs with |x|_1 < 1e-5: finiteness, unit length and range only); the octahedral integers of a skip-transform decode must lie in [0, 2^q-1].'),
+    level_note='Sampled. Angle evaluated with atan2(|x cross y|, x.y) in double from the float32 input; no library code in the oracle. Evidence reports the worst observed angle/bound ratio.',
+    rule='one case = (topology or point set, normal style, q, per-vertex/per-corner, position type, option vector). Non-trivial = >= 1 normal judged on angle; distinct = hash of the stream.',
+    runs=[dict(variant='plain', harness='c07_normals', cases=dict(quick=40000, thorough=1500000)),
+          dict(variant='asan', harness='c07_normals', tag='asan-slice', cases=dict(quick=3000, thorough=60000))],
+    min_nontrivial=10000,
+    require_counters={'config/edgebreaker/geometric-normal': 2000, 'config/edgebreaker/difference': 2000, 'config/mesh-sequential/difference': 2000, 'config/pc-sequential/difference': 2000,
+                      'normals_judged': 3000000, 'normals_tiny_input': 1000, 'octahedral_coordinates_checked': 3000000, 'q/2': 500, 'q/30': 500},
     assumptions=[],
 )
